@@ -192,6 +192,9 @@ func evict(base, current string) {
 		if total <= 2500<<20 {
 			break
 		}
+		if time.Since(x.mt) < 45*time.Minute {
+			break // possibly in use by a concurrent run
+		}
 		os.RemoveAll(filepath.Join(progDir, x.name))
 		total -= x.size
 	}
@@ -290,18 +293,18 @@ type Job struct {
 
 // Result of a job.
 type Result struct {
-	Key       string
-	Dir       string // cache directory: gen/ (generated tree), bin (executable), meta.json
-	GenOK     bool
-	GenOut    string
-	BuildOK   bool
-	BuildOut  string
-	VetOK     bool
-	VetOut    string
-	Cached    bool
-	GenFiles  []string // generated files relative to Dir/gen
-	Seconds   float64
-	Internal  string // harness-side failure (not attributable to the generator)
+	Key      string
+	Dir      string // cache directory: gen/ (generated tree), bin (executable), meta.json
+	GenOK    bool
+	GenOut   string
+	BuildOK  bool
+	BuildOut string
+	VetOK    bool
+	VetOut   string
+	Cached   bool
+	GenFiles []string // generated files relative to Dir/gen
+	Seconds  float64
+	Internal string // harness-side failure (not attributable to the generator)
 }
 
 func (r *Result) BinPath() string { return filepath.Join(r.Dir, "bin") }
